@@ -165,7 +165,7 @@ def _fmt_vals(vals):
 # ------------------------------------------------------------------------------------------------
 
 def must_pass(ctx, rule, fkey, target, what, depth=4, start_after=None, only_if_edge=None,
-              exits=None, fn=None, callpred=None):
+              exits=None, fn=None, callpred=None, stmt_pred=None):
     """Every path entry -> success exit of fkey passes a call that must reach `target`.
     start_after: predicate over call dicts; paths start after (each) matching call instead of entry.
     only_if_edge: (block, successor) restriction: paths start at that successor."""
@@ -180,6 +180,10 @@ def must_pass(ctx, rule, fkey, target, what, depth=4, start_after=None, only_if_
         ncalls += 1
         if mr.call(c, fn=f):
             passing.add(b)
+    if stmt_pred is not None:
+        for bi, blk in enumerate(f.blocks):
+            if not blk.get("cu") and any(stmt_pred(f, st) for st in blk["s"]):
+                passing.add(bi)
     ctx.callsites_seen += ncalls
     ctx.count("call_sites_examined", ncalls)
     ex = exits if exits is not None else C.success_exit_blocks(f)
@@ -605,3 +609,13 @@ def switch_on_call(fn, target):
             tt, ft = ft, tt
         out.append((b, tt, ft, cond[1]))
     return out
+
+
+def assigns_field(owner, field):
+    """stmt_pred: an assignment whose destination's last field projection is owner.field."""
+    def sp(fn, st):
+        if st[0] != "=":
+            return False
+        fields = [p for p in st[1][1] if isinstance(p, list) and p[0] == "f"]
+        return bool(fields) and fields[-1][2] == field and fields[-1][3] == owner
+    return sp
